@@ -819,8 +819,66 @@ def rule_r3(F, rep):
     rep.trust("std: <f64 as FromStr> is correctly rounded; <f64 as Display> prints the shortest round-trip decimal")
 
 
+def rule_r1b(F, rep):
+    R = rep.rule("C06.R1b", "the finiteness gate itself is sound: check_number_value returns Ok only after classifying its "
+                 "argument (`classify()` / `is_finite()`) as finite — no path accepts the value on the strength of a comparison "
+                 "that also holds for an infinity or a NaN")
+    FPCAT = "core::num::FpCategory"
+    fn = F.fn("<rsjsonnet_lang::program::eval::Evaluator>::check_number_value")
+    rep.fn(fn)
+    body = fn.body
+    results = {}
+    cats = ["Nan", "Infinite", "Zero", "Subnormal", "Normal"]
+    names = {callee_name(t) or "" for _, t in body.calls()}
+    uses_classify = any(n.endswith("::classify") for n in names)
+    uses_isfin = any(n.endswith("::is_finite") for n in names)
+    cases = (cats if uses_classify else []) + (["is_finite=1", "is_finite=0"] if uses_isfin and not uses_classify else [])
+    if not cases:
+        rep.violation(R, "check_number_value|no-classifier", "check_number_value neither classifies its argument nor asks is_finite", fn.loc)
+    for cat in cases:
+        def hook(w, bb, t, env, args, cat=cat):
+            n = callee_name(t) or ""
+            if n in ("<f64>::classify", "core::f64::<impl f64>::classify"):
+                env["#classified"] = 1
+                if cat in cats:
+                    return ("var", FPCAT, cat)
+                return None
+            if n in ("<f64>::is_finite", "core::f64::<impl f64>::is_finite"):
+                env["#classified"] = 1
+                if cat.startswith("is_finite="):
+                    return int(cat[-1])
+                return 1 if cat in ("Zero", "Subnormal", "Normal") else 0
+            if n.endswith("core::ops::try_trait::FromResidual>::from_residual"):
+                return ("var", "core::result::Result", "Err")
+            return None
+        w = kwalk.Walker(F, body, call_result=hook, want_ret=True, ret_prefixes=("0", "#classified"))
+        outs = w.run(0, {})
+        rep.states += w.states_explored
+        res = set()
+        for kind, marks, ret in outs:
+            if kind != "return":
+                continue
+            d = dict(ret or ())
+            top = d.get("0")
+            isok = isinstance(top, tuple) and top[0] == "var" and top[2] == "Ok"
+            res.add(("Ok" if isok else "Err", bool(d.get("#classified"))))
+        results[cat] = res
+    for cat, res in results.items():
+        finite = cat in ("Zero", "Subnormal", "Normal", "is_finite=1")
+        # every Ok must come after a classification; non-finite categories must never be Ok
+        ok = all(c for r, c in res if r == "Ok") and (finite or not any(r == "Ok" for r, c in res)) and \
+            (not finite or any(r == "Ok" for r, c in res))
+        rep.ob(R, "check_number_value|%s" % cat, ok, {"category": cat, "outcomes(result, classified first)": sorted(map(str, res))})
+        if not ok:
+            rep.violation(R, "check_number_value|%s" % ("unclassified-accept" if any(r == "Ok" and not c for r, c in res) else cat),
+                          "check_number_value with the value classified as %s: outcomes %s — the gate must return Ok exactly for "
+                          "finite values and only after classifying the value (a comparison shortcut accepts -inf or NaN)"
+                          % (cat, sorted(map(str, res))), fn.loc)
+
+
 def run(F, rep, tier):
     rule_r1(F, rep)
+    rule_r1b(F, rep)
     rule_r2(F, rep)
     rule_r3(F, rep)
     from . import casts
